@@ -72,7 +72,7 @@ Inductive c15case :=
 | ConsCase (k : nat) (batches : nat) (evs : list ev) (emitted : list (nat * list nat)) (* maps in the emission, batches found *)
 | FwdCase (window : Z) (xheaders : list (str * str)) (dynraw : list str) (utf8 : list (str * bool))
           (items : list witem) (marked : bool) (nflush : nat) (evs : list ev) (bodies : list body)
-          (ctr : counters).
+          (ctr : counters) (notified : option nat).   (* NotifyFlush calls seen by the coordinator (manual flushes only) *)
 
 Inductive why :=
 | WSplit (model : list (str * list entry))
@@ -80,7 +80,8 @@ Inductive why :=
 | WUnknownItem (body i : nat) | WKey (body : nat) (keys : list str) | WHeaders (body : nat) (model : list (str * option str))
 | WRetry (body : nat) (outs : list outcome) | WOverlap (body : nat) | WEarlyStop (body : nat) (window elapsed_ub : Z)
 | WItemCount (i n : nat) | WInvalidPresent (i : nat) | WNoFlush (body : nat)
-| WCounters (model : counters) (invalid_lo invalid_hi : nat).
+| WCounters (model : counters) (invalid_lo invalid_hi : nat)
+| WNotified (model : nat).
 
 (* ---- SplitCase ---- *)
 Definition check_split (dps : list datapoint) (names : list str) (obs : list (str * list entry)) : bool :=
@@ -130,7 +131,7 @@ Definition windows_meet (evs : list ev) (nflush : nat) (a b : nat) : bool :=
 
 Definition fwd_problems (window : Z) (xh : list (str * str)) (dynraw : list str) (utf8 : list (str * bool))
     (items : list witem) (marked : bool) (nflush : nat) (evs : list ev) (bodies : list body) (ctr : counters)
-    : list why :=
+    (notified : option nat) : list why :=
   let dyn := effective_dyn xh dynraw in
   let ok := item_ok (utf8_of utf8) in
   let ibodies := imap (λ i b, (i, b)) bodies in
@@ -181,7 +182,17 @@ Definition fwd_problems (window : Z) (xh : list (str * str)) (dynraw : list str)
   ++ (if (n_created ctr =? n_created model_ctr) && (n_sent ctr =? n_sent model_ctr)
          && (n_retried ctr =? n_retried model_ctr) && (n_dropped ctr =? n_dropped model_ctr)
          && (inv_lo <=? n_invalid ctr) && (n_invalid ctr <=? inv_hi)
-      then [] else [WCounters model_ctr inv_lo inv_hi]).
+      then [] else [WCounters model_ctr inv_lo inv_hi])
+  (* Props.C15_one_notification_per_flush / C15_notifications_dynamic: one NotifyFlush per flush without
+     dynamic headers, else one per part = per request created or found unserialisable (the nop is none) *)
+  ++ (match notified with
+      | None => []
+      | Some n => let model := match dyn with
+                               | [] => nflush
+                               | _ => length bodies - 1 + n_invalid ctr
+                               end in
+                  if n =? model then [] else [WNotified model]
+      end).
 
 Definition problems (c : c15case) : list why :=
   match c with
@@ -189,8 +200,8 @@ Definition problems (c : c15case) : list why :=
       if check_split dps names obs then []
       else [WSplit ((λ kp, (kp.1, entries kp.2)) <$> split_by_tags names (receive_all empty_map dps))]
   | ConsCase k nb evs emitted => cons_problems k nb evs emitted
-  | FwdCase window xh dynraw utf8 items marked nflush evs bodies ctr =>
-      fwd_problems window xh dynraw utf8 items marked nflush evs bodies ctr
+  | FwdCase window xh dynraw utf8 items marked nflush evs bodies ctr notified =>
+      fwd_problems window xh dynraw utf8 items marked nflush evs bodies ctr notified
   end.
 
 Definition check_case (c : c15case) : bool := match problems c with [] => true | _ => false end.
